@@ -260,6 +260,10 @@ class Mp4Atom(ObjectWithFields):
                         return self._children[idx]
                     return ch
                 if recurse_children and max_recursion > 0:
+                    if isinstance(ch, LazyLoadedBox) and ch._box_class.parse_children:
+                        # the children of a container that has not been parsed
+                        # yet only exist once it has been loaded
+                        ch = ch.lazy_load()
                     c = ch.find_atom(
                         atom_type, check_parent=check_parent,
                         recurse_children=True, no_exception=True,
